@@ -1,6 +1,169 @@
-(* C11 - property paths (placeholder while the proofs are being written) *)
-From RV Require Import Paths.Model.
+(* C11 - Property paths denote the relation SPARQL defines, for every binding of
+   the ends.  Property theorems only; proofs are in Paths/{Basics,Eval,Spec,Main}.v.
 
-Theorem C11_zero_length_pre : forall x, mul_pre true (Some x) None = [(x, x)].
-Proof. reflexivity. Qed.
-Print Assumptions C11_zero_length_pre.
+   [eval g n p s o] is the model of Graph.triples((s, p, o)) for a path p
+   (rdflib/paths.py), [path_rel g p] the relation of SPARQL 1.1 section 18.4,
+   [ends_ok g s o x y] "restricted to the given start and/or end term" (both ends
+   unbound: the pairs range over the nodes of the graph).
+
+   Three findings limit the full statement (each has a [_refuted] witness):
+     F4b  p* / p? with a bound end on a cycle yields the zero-length pair twice
+     F4c  negated property sets with an inverse member do not follow 18.4
+     F4d  a sequence of >= 3 steps that can all match with zero length, evaluated
+          backwards from a bound end that is not a node of the graph, misses (y,y)
+     F4e  (SPARQL route) translatePath does not translate ^iri inside !(..), and !() raises *)
+From RV Require Import Paths.Model Paths.Basics Paths.Eval Paths.Spec Paths.Main.
+
+(* Soundness and completeness for each of the four bound/unbound combinations of
+   the ends, every path without an inverse member in a negated set (F4c), and -
+   unless the path is free of the F4d pattern - bound ends that occur in the graph.
+   The fuel [fuel g] is never exhausted. *)
+Theorem C11_sound_complete_partial : forall g p s o,
+  wfp p = true -> has_ninv p = false ->
+  (has_seq3 p = false \/ (end_nd g s = true /\ end_nd g o = true)) ->
+  exists l, eval g (fuel g) p s o = Ok l
+            /\ forall x y, In (x, y) l <-> path_rel g p x y /\ ends_ok g s o x y.
+Proof. exact sound_complete. Qed.
+Print Assumptions C11_sound_complete_partial.
+
+(* the same, spelled out per combination *)
+Theorem C11_four_bindings_partial : forall g p a b,
+  wfp p = true -> has_ninv p = false -> has_seq3 p = false ->
+  (exists l, eval g (fuel g) p (Some a) (Some b) = Ok l
+             /\ forall x y, In (x, y) l <-> path_rel g p x y /\ x = a /\ y = b)
+  /\ (exists l, eval g (fuel g) p (Some a) None = Ok l
+             /\ forall x y, In (x, y) l <-> path_rel g p x y /\ x = a)
+  /\ (exists l, eval g (fuel g) p None (Some b) = Ok l
+             /\ forall x y, In (x, y) l <-> path_rel g p x y /\ y = b)
+  /\ (exists l, eval g (fuel g) p None None = Ok l
+             /\ forall x y, In (x, y) l <-> path_rel g p x y /\ In x (nodes g) /\ In y (nodes g)).
+Proof.
+  intros g p a b Hw Hi Hs.
+  split; [exact (sound_complete g p (Some a) (Some b) Hw Hi (or_introl Hs))|].
+  split; [exact (sound_complete g p (Some a) None Hw Hi (or_introl Hs))|].
+  split; [exact (sound_complete g p None (Some b) Hw Hi (or_introl Hs))|].
+  exact (sound_complete g p None None Hw Hi (or_introl Hs)).
+Qed.
+Print Assumptions C11_four_bindings_partial.
+
+(* Termination on every graph (cycles, self-loops): the depth-first searches
+   never run out of the fuel |subject/object occurrences| + 1. *)
+Theorem C11_terminates_partial : forall g p s o,
+  wfp p = true -> has_ninv p = false ->
+  (has_seq3 p = false \/ (end_nd g s = true /\ end_nd g o = true)) ->
+  eval g (fuel g) p s o <> OutOfFuel /\ eval g (fuel g) p s o <> Raised.
+Proof.
+  intros g p s o Hw Hi Hc. destruct (sound_complete g p s o Hw Hi Hc) as (l & Hl & _).
+  rewrite Hl. split; discriminate.
+Qed.
+Print Assumptions C11_terminates_partial.
+
+(* more fuel changes nothing: any n >= fuel g gives a correct answer too *)
+Theorem C11_fuel_monotone_partial : forall g n p s o,
+  fuel g <= n -> wfp p = true -> has_ninv p = false ->
+  (has_seq3 p = false \/ (end_nd g s = true /\ end_nd g o = true)) ->
+  exists l, eval g n p s o = Ok l
+            /\ forall x y, In (x, y) l <-> path_rel g p x y /\ ends_ok g s o x y.
+Proof. intros g n p s o Hn Hw Hi Hc. exact (eval_spec g n Hn p Hw Hi s o Hc). Qed.
+Print Assumptions C11_fuel_monotone_partial.
+
+(* The answer of a closure (p*, p+, p?, possibly under ^) has no duplicates,
+   unless the zero-length pair of a bound end is found again by the search (F4b). *)
+Theorem C11_closure_nodup_partial : forall g p s o l,
+  closure_top p = true -> wfp p = true -> has_ninv p = false ->
+  (has_seq3 p = false \/ (end_nd g s = true /\ end_nd g o = true)) ->
+  dup_trigger g p s o = false ->
+  eval g (fuel g) p s o = Ok l -> NoDup l.
+Proof. exact dup_free. Qed.
+Print Assumptions C11_closure_nodup_partial.
+
+(* A zero-length match on a given term holds even if the term does not occur in
+   the graph (no hypothesis on the graph, the inner path or the term). *)
+Theorem C11_zero_length : forall g n a m x l,
+  mod_zero m = true ->
+  (eval g n (Mul a m) (Some x) None = Ok l \/ eval g n (Mul a m) None (Some x) = Ok l
+   \/ eval g n (Mul a m) (Some x) (Some x) = Ok l) ->
+  In (x, x) l.
+Proof. exact zero_length. Qed.
+Print Assumptions C11_zero_length.
+
+(* The relation itself: zero-length matches relate every term to itself, and a
+   related pair is such a match or consists of nodes of the graph. *)
+Theorem C11_relation_nodes : forall g p x y,
+  path_rel g p x y -> x = y \/ (In x (nodes g) /\ In y (nodes g)).
+Proof. exact path_rel_RN. Qed.
+Print Assumptions C11_relation_nodes.
+
+(* What the correspondence check evaluates: reading of the checker ... *)
+Theorem C11_spec_ok_reading : forall c l,
+  spec_ok c (Ok l) = true <->
+  (forall x y, In (x, y) l <-> path_rel (c_g c) (c_path c) x y /\ ends_ok (c_g c) (c_s c) (c_o c) x y)
+  /\ (closure_top (c_path c) = true -> NoDup l).
+Proof. exact spec_ok_reading. Qed.
+Print Assumptions C11_spec_ok_reading.
+
+Theorem C11_spec_ok_rejects_failures : forall c,
+  spec_ok c OutOfFuel = false /\ spec_ok c Raised = false.
+Proof. exact spec_ok_not_ok. Qed.
+Print Assumptions C11_spec_ok_rejects_failures.
+
+(* ... the computed relation is the specification relation (Warshall closure) ... *)
+Theorem C11_expected_is_relation : forall g p s o x y,
+  In (x, y) (expected g p s o) <-> path_rel g p x y /\ ends_ok g s o x y.
+Proof. exact expected_spec. Qed.
+Print Assumptions C11_expected_is_relation.
+
+(* ... and the model satisfies it on every case outside the findings' triggers. *)
+Theorem C11_spec_ok_model_partial : forall c, wf c -> kf c = 0%N -> spec_ok c (model_obs c) = true.
+Proof. exact spec_ok_model. Qed.
+Print Assumptions C11_spec_ok_model_partial.
+
+(* The full statement "forall c, wf c -> spec_ok c (model_obs c) = true" is false:
+   one witness per finding, each replayed on rdflib (corpus/C11). *)
+Theorem C11_F4b_refuted : exists c, wf c /\ kf c = 1%N /\ spec_ok c (model_obs c) = false
+  /\ model_obs c = Ok [(1, 1); (1, 2); (1, 1)]%N.
+Proof.
+  exists {| c_g := [(1, 3, 2); (2, 3, 1)]%N; c_path := Mul (Iri 3%N) ZeroOrMore;
+            c_s := Some 1%N; c_o := None; c_sparql := false |}.
+  repeat split; vm_compute; reflexivity.
+Qed.
+Print Assumptions C11_F4b_refuted.
+
+Theorem C11_F4c_refuted : exists c, wf c /\ kf c = 2%N /\ spec_ok c (model_obs c) = false
+  /\ model_obs c = Ok [(1, 2)]%N /\ expected (c_g c) (c_path c) (c_s c) (c_o c) = [(2, 1)]%N.
+Proof.
+  exists {| c_g := [(1, 3, 2)]%N; c_path := Neg [NInv 4%N];
+            c_s := None; c_o := None; c_sparql := false |}.
+  repeat split; vm_compute; reflexivity.
+Qed.
+Print Assumptions C11_F4c_refuted.
+
+Theorem C11_F4d_refuted : exists c, wf c /\ kf c = 3%N /\ spec_ok c (model_obs c) = false
+  /\ model_obs c = Ok [] /\ expected (c_g c) (c_path c) (c_s c) (c_o c) = [(1, 1)]%N.
+Proof.
+  exists {| c_g := []; c_path := Seq [Mul (Iri 3%N) ZeroOrMore; Mul (Iri 4%N) ZeroOrMore; Mul (Iri 3%N) ZeroOrMore];
+            c_s := None; c_o := Some 1%N; c_sparql := false |}.
+  repeat split; vm_compute; reflexivity.
+Qed.
+Print Assumptions C11_F4d_refuted.
+
+Theorem C11_F4e_refuted : exists c, wf c /\ kf c = 4%N /\ model_obs c = Raised.
+Proof.
+  exists {| c_g := [(1, 3, 2)]%N; c_path := Neg [NInv 4%N];
+            c_s := None; c_o := None; c_sparql := true |}.
+  repeat split; vm_compute; reflexivity.
+Qed.
+Print Assumptions C11_F4e_refuted.
+
+(* non-vacuity: a nested closure over a graph with a 2-cycle, a self-loop and a
+   falsy literal end point is inside the scope of the theorems, and its answer
+   from a start that is not in the graph is the zero-length pair alone *)
+Example C11_nonvacuous :
+  let g := [(1, 3, 2); (2, 3, 1); (2, 4, 2); (2, 4, 6)]%N in
+  let p := Seq [Mul (Alt [Iri 3; Inv (Iri 4)]%N) ZeroOrMore; Mul (Iri 4%N) ZeroOrOne] in
+  wfp p = true /\ has_ninv p = false /\ has_seq3 p = false
+  /\ obs_eqb (eval g (fuel g) p (Some 1%N) None) (Ok [(1, 1); (1, 2); (1, 6)]%N) = false
+  /\ seteqb pr_eqb (match eval g (fuel g) p (Some 1%N) None with Ok l => l | _ => [] end)
+                   [(1, 1); (1, 2); (1, 6)]%N = true
+  /\ eval g (fuel g) p (Some 13%N) None = Ok [(13, 13)]%N.
+Proof. vm_compute. repeat split; reflexivity. Qed.
